@@ -1,6 +1,8 @@
 /-
   Ops/Factory.lean — driver ops for the zone-factory state machine and the zone `__eq__` table (C18).
 
+  fact.runir <offset|str> <kind> …   the same request executed by `IR.stepState` on the programs translated from the
+                                      source on this run (Generated/FactoryPrograms.lean) — validates the translator
   fact.run <kind> <cap> <res> <scripts> <schedule> <eager>
      kind     lru | gettz | single (slot pre-filled at import, like tzutc) | single0 (fresh class)
      cap      strong-cache size
@@ -26,6 +28,8 @@
 import DateutilVerif.Base.Wire
 import DateutilVerif.Model.Factory
 import DateutilVerif.Model.GettzResolve
+import DateutilVerif.Model.FactoryIR
+import DateutilVerif.Generated.FactoryPrograms
 
 namespace Ops.Factory
 open Wire Fact
@@ -80,8 +84,8 @@ def minor : Pc → Bool
   | _ => false
 
 /-- one statement: a step, then the steps at `minor` pcs that belong to the same statement -/
-def macroStep (kd : Kind) (res : Key → Res) (t : Tid) (s : State) : Option State :=
-  match step kd res s (.thr t) with
+def macroStep (stp : State → Label → Option State) (t : Tid) (s : State) : Option State :=
+  match stp s (.thr t) with
   | none => none
   | some s1 =>
     let rec go : Nat → State → State
@@ -90,7 +94,7 @@ def macroStep (kd : Kind) (res : Key → Res) (t : Tid) (s : State) : Option Sta
         match s.ths[t]? with
         | some th =>
           if minor th.pc then
-            match step kd res s (.thr t) with
+            match stp s (.thr t) with
             | some s' => go n s'
             | none => s
           else s
@@ -103,22 +107,35 @@ def keysOf (scripts : List (List Op)) : List Key :=
 def showEv (e : Ev) : String :=
   s!"{e.tid}:{e.key}:{if e.exc then "!" else showOptInt (e.val.map Int.ofNat)}:{if e.cached then 1 else 0}"
 
-def run (kd : Kind) (res : Key → Res) (s0 : State) (keys : List Key) (labs : List Lab) (eager : Bool) : String :=
+/-- run thread `t` until its current operation has finished (as `Fact.runOp`, over any step function) -/
+def runOpG (stp : State → Label → Option State) (t : Tid) : Nat → State → Option State
+  | 0, _ => none
+  | fuel + 1, s =>
+    match stp s (.thr t) with
+    | none => none
+    | some s' =>
+      match s'.ths[t]? with
+      | some th => if th.pc == .idle then some s' else runOpG stp t fuel s'
+      | none => none
+
+/-- `stp` = the hand-written `step` (fact.run) or the interpreter of the translated programs (fact.runir) -/
+def run (stp : State → Label → Option State) (kd : Kind) (res : Key → Res) (s0 : State) (keys : List Key)
+    (labs : List Lab) (eager : Bool) : String :=
   let gc (s : State) : State := if eager then collectAll kd res keys s else s
   let pcOf (s : State) (t : Nat) : String := match s.ths[t]? with | some th => pcName th.pc | none => "?"
   let (s, pcs) := labs.foldl (fun (acc : State × List String) l =>
       let (s, pcs) := acc
       match l with
-      | .t i => match step kd res s (.thr i) with
+      | .t i => match stp s (.thr i) with
                 | some s' => (gc s', pcOf s' i :: pcs)
                 | none => (s, "B" :: pcs)
-      | .m i => match macroStep kd res i s with
+      | .m i => match macroStep stp i s with
                 | some s' => (gc s', pcOf s' i :: pcs)
                 | none => (s, "B" :: pcs)
-      | .r i => match runOp kd res i 100000 s with
+      | .r i => match runOpG stp i 100000 s with
                 | some s' => (gc s', pcOf s' i :: pcs)
                 | none => (s, "B" :: pcs)
-      | .d i n => match step kd res s (.drop i n) with
+      | .d i n => match stp s (.drop i n) with
                 | some s' => (gc s', pcs)
                 | none => (s, "B" :: pcs)
       | .g => (collectAll kd res keys s, pcs)
@@ -185,22 +202,35 @@ def showResolution : Gettz.R → String
   | .error .valueError => "err ValueError"
   | .error .structError => "err StructError"
 
+/-- `P = none`: the hand-written machine; `some P`: the interpreter of the translated programs `P` -/
+def factRun (P : Option IR.Programs) (kind cap res scripts sched eager : String) : String := Id.run do
+  let some cap := cap.toNat? | return "err ValueError"
+  let some classes := parseIntList? res | return "err ValueError"
+  let some scripts := parseScripts? scripts | return "err ValueError"
+  let some labs := (if sched == "-" then some [] else (sched.splitOn ",").mapM parseLab?) | return "err ValueError"
+  let keys := keysOf scripts
+  let rs := resOf classes
+  let go (kd : Kind) (s0 : State) : String :=
+    let stp : State → Label → Option State := match P with
+      | none => step kd rs
+      | some P => IR.stepState P kd rs
+    run stp kd rs s0 keys labs (eager == "1")
+  match kind with
+  | "lru" => return go .lru (initState cap scripts)
+  | "gettz" => return go .gettz (initState cap scripts)
+  | "single" => return go .single (initSingleton scripts)
+  | "single0" => return go .single (initState cap scripts)
+  | _ => return "err ValueError"
+
 def handle (op : String) (args : List String) : Option String :=
   match op, args with
   | "fact.run", [kind, cap, res, scripts, sched, eager] =>
-    some <| Id.run do
-      let some cap := cap.toNat? | return "err ValueError"
-      let some classes := parseIntList? res | return "err ValueError"
-      let some scripts := parseScripts? scripts | return "err ValueError"
-      let some labs := (if sched == "-" then some [] else (sched.splitOn ",").mapM parseLab?) | return "err ValueError"
-      let keys := keysOf scripts
-      let rs := resOf classes
-      match kind with
-      | "lru" => return run .lru rs (initState cap scripts) keys labs (eager == "1")
-      | "gettz" => return run .gettz rs (initState cap scripts) keys labs (eager == "1")
-      | "single" => return run .single rs (initSingleton scripts) keys labs (eager == "1")
-      | "single0" => return run .single rs (initState cap scripts) keys labs (eager == "1")
-      | _ => return "err ValueError"
+    some (factRun none kind cap res scripts sched eager)
+  | "fact.runir", [progs, kind, cap, res, scripts, sched, eager] =>
+    some (match progs with
+      | "offset" => factRun (some Gen.offsetPrograms) kind cap res scripts sched eager
+      | "str" => factRun (some Gen.strPrograms) kind cap res scripts sched eager
+      | _ => "err ValueError")
   | "gettz.resolve", [tzvar, tzfiles, tzpaths, files, tzname, vend, sok, name] =>
     some <| Id.run do
       let some tzvar := parseOptStr? tzvar | return "err BadRequest"
